@@ -66,7 +66,11 @@ def averaging_merger(data):
     # gets annoying, so we silence them.
     with warnings.catch_warnings():
         warnings.simplefilter("ignore")
-        return np.nanmean(data.reshape(s), axis=(1, 3)).astype(data.dtype)
+        # Accumulate in double precision: the sum of four large values can
+        # overflow the tile's own type even though their mean fits it.
+        return np.nanmean(data.reshape(s), axis=(1, 3), dtype=np.float64).astype(
+            data.dtype
+        )
 
 
 def cascade_images(
